@@ -1,6 +1,16 @@
 package props
 
-import "encoding/json"
+import (
+	"encoding/json"
+	"fmt"
+	"regexp"
+	"sort"
+	"strings"
+
+	"github.com/nyaruka/goflow/assets"
+	"github.com/nyaruka/goflow/flows"
+	"github.com/nyaruka/goflow/flows/resumes"
+)
 
 func marshalJSON(v any) []byte {
 	b, _ := json.Marshal(v)
@@ -8,3 +18,118 @@ func marshalJSON(v any) []byte {
 }
 
 func jsonUnmarshal(b []byte, v any) error { return json.Unmarshal(b, v) }
+
+// firstJSONDiff returns the path of the first difference between two JSON texts (or newline-joined lists of JSON texts).
+func firstJSONDiff(a, b string) string {
+	la, lb := strings.Split(a, "\n"), strings.Split(b, "\n")
+	typeOf := func(doc string) string {
+		var m struct {
+			Type string `json:"type"`
+		}
+		json.Unmarshal([]byte(doc), &m)
+		return m.Type
+	}
+	n := len(la)
+	if len(lb) < n {
+		n = len(lb)
+	}
+	for i := 0; i < n; i++ {
+		if la[i] != lb[i] {
+			ta, tb := typeOf(la[i]), typeOf(lb[i])
+			if ta != tb {
+				return fmt.Sprintf("[%d](%s vs %s)", i, ta, tb)
+			}
+			var va, vb any
+			if json.Unmarshal([]byte(la[i]), &va) != nil || json.Unmarshal([]byte(lb[i]), &vb) != nil {
+				return fmt.Sprintf("[%d]<unparseable>", i)
+			}
+			prefix := ""
+			if len(la) > 1 {
+				prefix = fmt.Sprintf("[%d]", i)
+				if ta != "" {
+					prefix += "(" + ta + ")"
+				}
+			}
+			return prefix + diffPath(va, vb, "")
+		}
+	}
+	if len(la) != len(lb) {
+		extra := ""
+		if len(la) > n {
+			extra = typeOf(la[n]) + " vs <none>"
+		} else {
+			extra = "<none> vs " + typeOf(lb[n])
+		}
+		return fmt.Sprintf("[%d](%s)", n, extra)
+	}
+	return ""
+}
+
+func diffPath(a, b any, path string) string {
+	switch ta := a.(type) {
+	case map[string]any:
+		tb, ok := b.(map[string]any)
+		if !ok {
+			return path + "<type>"
+		}
+		keys := map[string]bool{}
+		for k := range ta {
+			keys[k] = true
+		}
+		for k := range tb {
+			keys[k] = true
+		}
+		var ks []string
+		for k := range keys {
+			ks = append(ks, k)
+		}
+		sort.Strings(ks)
+		for _, k := range ks {
+			va, oka := ta[k]
+			vb, okb := tb[k]
+			if oka != okb {
+				return path + "." + k + "<presence>"
+			}
+			if d := diffPath(va, vb, path+"."+k); d != "" {
+				return d
+			}
+		}
+		return ""
+	case []any:
+		tb, ok := b.([]any)
+		if !ok {
+			return path + "<type>"
+		}
+		if len(ta) != len(tb) {
+			return path + "<length>"
+		}
+		for i := range ta {
+			if d := diffPath(ta[i], tb[i], fmt.Sprintf("%s[%d]", path, i)); d != "" {
+				return d
+			}
+		}
+		return ""
+	default:
+		if a != b {
+			return path
+		}
+		return ""
+	}
+}
+
+var reIdx = regexp.MustCompile(`\[\d+\]`)
+var reUUID = regexp.MustCompile(`[0-9a-f]{8}-[0-9a-f]{4}-[0-9a-f]{4}-[0-9a-f]{4}-[0-9a-f]{12}`)
+
+// stripIndices removes array indices and UUIDs from a JSON path (for signatures).
+func stripIndices(p string) string {
+	return reUUID.ReplaceAllString(reIdx.ReplaceAllString(p, "[]"), "<uuid>")
+}
+
+func resumesRead(sa flows.SessionAssets, data []byte) (res flows.Resume, err error) {
+	defer func() {
+		if r := recover(); r != nil {
+			err = fmt.Errorf("panic reading resume: %v", r)
+		}
+	}()
+	return resumes.ReadResume(sa, data, func(assets.Reference, error) {})
+}
